@@ -398,6 +398,31 @@ func (ex *Exec) initIntrinsics() {
 	for _, n := range []string{"internal/godebug.setUpdate", "internal/godebug.registerMetric", "internal/godebug.setNewIncNonDefault"} {
 		in[n] = nop
 	}
+	// crypto/md5 is assembly: an uninterpreted function of its input (same input cells => same digest)
+	in["crypto/md5.Sum"] = func(ex *Exec, st *State, args []Value, site ssa.CallInstruction) Value {
+		s := args[0].(SliceV)
+		key := "md5:"
+		if s.Obj != 0 {
+			n := st.ubLen(s, s.Len)
+			key += fmt.Sprintf("%d:", s.Len.ID)
+			for _, t := range st.termCells(s, n) {
+				key += fmt.Sprintf("%d,", t.ID)
+			}
+		}
+		if v, ok := st.ghost[key]; ok {
+			return v
+		}
+		out := make(ArrayV, 16)
+		base := st.freshName("md5")
+		st.nameCnt["md5"]++
+		for i := range out {
+			t := c.Var(fmt.Sprintf("%s[%d]", base, i), 8)
+			st.inputs = append(st.inputs, Input{Name: t.Name, Term: t, Kind: "cell"})
+			out[i] = t
+		}
+		st.ghost[key] = out
+		return out
+	}
 	in["sync.runtime_registerPoolCleanup"] = nop
 	in["sync.runtime_notifyListCheck"] = nop
 	in["regexp.MustCompile"] = func(ex *Exec, st *State, args []Value, site ssa.CallInstruction) Value {
